@@ -243,6 +243,7 @@ func famSchema(tr *Trace, scratch string, seed int64, tier string, repo, nfpmBin
 	// (3) every documented enumerated value of every setting
 	root0 := filepath.Join(scratch, "schema-src")
 	Materialise(root0, smallTree())
+	cross := false // a value documented for another setting of the same kind, tried here: not building is expected
 	probe := func(setting, value string, doc map[string]any, formats []string) {
 		y := docYAML(doc)
 		cfg, perr := nfpm.ParseWithEnvMapping(strings.NewReader(y), func(string) string { return "" })
@@ -267,7 +268,7 @@ func famSchema(tr *Trace, scratch string, seed int64, tier string, repo, nfpmBin
 				es = es[:300]
 			}
 		}
-		emit(M{"ev": "enumprobe", "setting": setting, "value": value, "parser_accepts": perr == nil, "builds": builds, "build_err": berr, "schema_valid": len(errs) == 0, "schema_err": es})
+		emit(M{"ev": "enumprobe", "setting": setting, "value": value, "parser_accepts": perr == nil, "builds": builds, "build_err": berr, "schema_valid": len(errs) == 0, "schema_err": es, "cross": cross})
 	}
 	base := func() map[string]any {
 		d := map[string]any{"name": "probe", "arch": "amd64", "version": "1.0.0", "maintainer": "M <m@example.org>", "description": "d"}
@@ -300,6 +301,50 @@ func famSchema(tr *Trace, scratch string, seed int64, tier string, repo, nfpmBin
 		d := base()
 		d["rpm"] = map[string]any{"compression": c}
 		probe("rpm.compression", c, d, []string{"rpm"})
+	}
+	// every compression name documented for ANY format, tried on each compression setting: whatever a packager turns out to
+	// build must validate
+	cross = true
+	for _, c := range []string{"gzip", "xz", "zstd", "none", "lzma", "gzip:9", "zstd:3", "xz:6", "lzma:6", "bzip2", "lz4"} {
+		d := base()
+		d["deb"] = map[string]any{"compression": c}
+		probe("deb.compression", c, d, []string{"deb"})
+		d = base()
+		d["rpm"] = map[string]any{"compression": c}
+		probe("rpm.compression", c, d, []string{"rpm"})
+	}
+	cross = false
+	// keys the schema does not allow must not be accepted by the parser either - whichever way the document gets to it
+	{
+		fdir := filepath.Join(scratch, "strict")
+		must(os.MkdirAll(fdir, 0o755))
+		seen := map[string]bool{}
+		for _, k := range configKeyPaths("yaml") {
+			last := k.Segs[len(k.Segs)-1]
+			if last == "[]" || last == "<fmt>" {
+				continue
+			}
+			parent := strings.Join(k.Segs[:len(k.Segs)-1], ".")
+			if seen[parent] {
+				continue
+			}
+			seen[parent] = true
+			segs := append(append([]string{}, k.Segs[:len(k.Segs)-1]...), last+"_unknown")
+			d := base()
+			setPath(d, segs, "x", "deb")
+			y := docYAML(d)
+			_, rerr := nfpm.ParseWithEnvMapping(strings.NewReader(y), func(string) string { return "" })
+			fp := filepath.Join(fdir, "probe.yaml")
+			must(os.WriteFile(fp, []byte(y), 0o644))
+			_, ferr := nfpm.ParseFileWithEnvMapping(fp, func(string) string { return "" })
+			cli := exec.Command(nfpmBin, "package", "-f", fp, "-p", "deb", "-t", filepath.Join(fdir, "out.deb"))
+			cerr := cli.Run()
+			os.Remove(filepath.Join(fdir, "out.deb"))
+			var errs []string
+			sd.validate(root, toJSONable(d), "$", &errs)
+			emit(M{"ev": "strictprobe", "path": strings.ReplaceAll(strings.Join(segs, "."), "<fmt>", "deb"), "schema_valid": len(errs) == 0,
+				"accepted_reader": rerr == nil, "accepted_file": ferr == nil, "accepted_cli": cerr == nil})
+		}
 	}
 	for _, m := range []string{"debsign", "dpkg-sig"} {
 		for _, ty := range []string{"origin", "maint", "archive"} {
@@ -388,7 +433,7 @@ func famSchema(tr *Trace, scratch string, seed int64, tier string, repo, nfpmBin
 				es = es[:300]
 			}
 		}
-		emit(M{"ev": "enumprobe", "setting": "generated-config", "value": pc.Profile, "parser_accepts": perr == nil, "builds": builds, "build_err": "", "schema_valid": doc != nil && len(errs) == 0, "schema_err": es})
+		emit(M{"ev": "enumprobe", "setting": "generated-config", "value": pc.Profile, "parser_accepts": perr == nil, "builds": builds, "build_err": "", "schema_valid": doc != nil && len(errs) == 0, "schema_err": es, "cross": false})
 		os.RemoveAll(pc.Root)
 	}
 	return M{"cases": id, "schema_paths": len(sp), "parser_paths": len(pp)}
